@@ -27,8 +27,11 @@ VARIABLES tr, l,
           batch,      \* pack ids delivered and not yet seen in a downstream write (content of the batcher)
           lost,       \* pack ids that sat in a batch whose write failed on another pack and were never written
           stalled,    \* the current incarnation had a failed write while another task kept the target's entity alive
+          ackts,      \* pack id -> <<ms, logical>>: emitted end time of the last effective downstream write that carried the pack
+          okc03,
+          infofail,   \* collections the downstream currently refuses to describe: their replication cannot be started
           okc05, okc06, kfused
-vars == <<tr, l, acked, delivered, prevStore, prevApi, eof, batch, lost, stalled, okc05, okc06, kfused>>
+vars == <<tr, l, acked, delivered, prevStore, prevApi, eof, batch, lost, stalled, ackts, okc03, infofail, okc05, okc06, kfused>>
 
 Params == Traces[tr].params
 Catalog == Params.catalog
@@ -37,7 +40,7 @@ TaskList == Params.tasks
 
 TInit == /\ tr \in 1..Len(Traces) /\ l = 1
          /\ acked = {} /\ delivered = <<>> /\ prevStore = [tasks |-> <<>>, pos |-> <<>>] /\ prevApi = <<>>
-         /\ eof = {} /\ batch = {} /\ lost = {} /\ stalled = FALSE /\ okc05 = TRUE /\ okc06 = TRUE /\ kfused = {}
+         /\ eof = {} /\ batch = {} /\ lost = {} /\ stalled = FALSE /\ ackts = <<>> /\ okc03 = TRUE /\ infofail = {} /\ okc05 = TRUE /\ okc06 = TRUE /\ kfused = {}
 
 (* ---------------- catalog helpers ---------------- *)
 CollById(id) == Catalog[CHOOSE i \in 1..Len(Catalog) : Catalog[i].id = id]
@@ -85,6 +88,13 @@ CkIn(st, coll, ch) ==
       THEN LET r == st.pos[CHOOSE i \in 1..Len(st.pos) : st.pos[i].coll = coll /\ \E j \in 1..Len(st.pos[i].pos) : st.pos[i].pos[j].ch = ch] IN
            r.pos[CHOOSE j \in 1..Len(r.pos) : r.pos[j].ch = ch].id
       ELSE ""
+\* "checkpoints of a collection whose drop has been replayed are frozen": an entry marked dropped never changes again
+Frozen(st0, st1) ==
+    \A i \in 1..Len(st0.pos) : \A j \in 1..Len(st0.pos[i].pos) :
+        LET r == st0.pos[i]  x == r.pos[j] IN
+        x.dropped =>
+          \A i2 \in 1..Len(st1.pos) : (st1.pos[i2].task = r.task /\ st1.pos[i2].coll = r.coll) =>
+              \E j2 \in 1..Len(st1.pos[i2].pos) : st1.pos[i2].pos[j2] = x
 \* a reader (re)starts exactly at the persisted checkpoint of its stream
 ResumeOK(regs, st) ==
     \A i \in 1..Len(regs) : (regs[i].op = "register" /\ regs[i].v \in DOMAIN Scripts) =>
@@ -104,6 +114,23 @@ AtLeastOnce(api, ef, a, st, bt, ls) ==
              \/ Scripts[s][k].id \in a
              \/ (Scripts[s][k].id \in bt /\ Cardinality(bt) < Params.maxcount)       \* still waiting in a batch that is not full
              \/ (KFOn("C05_batch_failure_drops_other_tasks") /\ Scripts[s][k].id \in ls)
+
+(* ---------------- C03 (end to end) ---------------- *)
+\* "across pause/resume or restart when streams are resumed from the persisted checkpoint": the position a stream is
+\* (re)registered with becomes the floor of the downstream channel clock; it has to lie strictly above the end time with
+\* which the checkpointed pack was written downstream (a hybrid timestamp: milliseconds, then the logical part)
+RECURSIVE AckTimes(_, _, _)
+AckTimes(lg, i, a) ==
+    IF i > Len(lg) THEN a
+    ELSE LET x == lg[i] IN
+         IF x.ev = "ack" /\ x.ok
+           THEN AckTimes(lg, i + 1, [id \in DOMAIN a \cup {x.ids[j] : j \in 1..Len(x.ids)} |->
+                                       IF \E j \in 1..Len(x.ids) : x.ids[j] = id THEN <<x.endt, x.endl>> ELSE a[id]])
+           ELSE AckTimes(lg, i + 1, a)
+FloorAboveAck(regs, a) ==
+    \A i \in 1..Len(regs) : (regs[i].op = "register" /\ regs[i].has_seek /\ regs[i].seek_id \in DOMAIN a) =>
+        LET t == a[regs[i].seek_id] IN
+        regs[i].seek_t > t[1] \/ (regs[i].seek_t = t[1] /\ regs[i].seek_l > t[2])
 
 (* ---------------- C06 ---------------- *)
 StateIn(api, t) == IF \E i \in 1..Len(api) : api[i].task = t
@@ -140,6 +167,14 @@ C06Step(e) ==
                                        \/ (KFOn("C06_batch_failure_pauses_trigger_task") /\ owners # {} /\ Params.maxcount > 1
                                             /\ t = TaskOfStream(e.s) /\ StateIn(e.api, t).state = "Paused")
       /\ (e.op = "deliver" /\ e.res = "ok" /\ UnknownPart(e.s, Scripts[e.s][e.idx]) => e.id \notin acked')   \* never silently written
+    \* a task whose collection cannot be started (the downstream refuses to describe it) when it is (re)started - reload after
+    \* boot / restart, resume - ends Paused with a reason; it must not stay Running without replicating the collection
+    /\ (e.op \in {"boot", "restart"} /\ ~Crashed(e.log)) =>
+          \A cn \in infofail : StateIn(prevApi, TaskOfColl(cn)).state # "Paused" =>
+               StateIn(e.api, TaskOfColl(cn)).state = "Paused" /\ StateIn(e.api, TaskOfColl(cn)).reason
+    /\ (e.op = "resume" /\ ~e.err /\ ~Crashed(e.log)) =>
+          \A cn \in infofail : TaskOfColl(cn) = e.task =>
+               StateIn(e.api, e.task).state = "Paused" /\ StateIn(e.api, e.task).reason
     \* "exactly the failing task": a task that is reported Running keeps reading - its streams are still registered
     /\ (e.op = "deliver" /\ e.res = "unregistered") => StateIn(e.api, TaskOfStream(e.s)).state # "Running"
 
@@ -150,12 +185,16 @@ TStep ==
        /\ e.op # "machinery"
        /\ LET f == FoldLog(e.log, 1, acked, TRUE) IN
           /\ acked' = f.a
-          /\ okc05' = (okc05 /\ f.ok /\ ResumeOK(e.regs, prevStore))
+          /\ okc05' = (okc05 /\ f.ok /\ ResumeOK(e.regs, prevStore) /\ Frozen(prevStore, e.store))
        /\ delivered' = IF e.op = "deliver" /\ e.res = "ok" THEN Append(delivered, [s |-> e.s, id |-> e.id, idx |-> e.idx, data |-> e.data]) ELSE delivered
        /\ eof' = IF e.op = "deliver" /\ e.res = "eof" THEN eof \cup {e.s}
                  ELSE IF e.op \in {"boot", "restart", "resume", "kill", "pause"} \/ Crashed(e.log) THEN {}
                  ELSE IF e.op = "deliver" /\ e.res # "eof" THEN eof \ {e.s} ELSE eof
        /\ okc06' = (okc06 /\ C06Step(e))
+       /\ ackts' = AckTimes(e.log, 1, ackts)
+       /\ okc03' = (okc03 /\ FloorAboveAck(e.regs, ackts))
+       /\ (P("C03") => okc03')
+       /\ infofail' = IF e.op = "infofail" THEN (IF e.on THEN infofail \cup {e.c} ELSE infofail \ {e.c}) ELSE infofail
        /\ prevStore' = e.store /\ prevApi' = e.api
        /\ (P("C05") => okc05')
        /\ (P("C06") => okc06')
